@@ -565,7 +565,10 @@ func init() {
 				for n := 1; n <= 130; n++ {
 					ns = append(ns, n)
 				}
-				ns = append(ns, 200, 257, 300, 513)
+				ns = append(ns, 200, 257, 300, 513, 1025, 2049, 4097, 5000)
+				if tier == "thorough" {
+					ns = append(ns, 8193, 10000, 16385, 40000, 65537)
+				}
 				for _, n := range ns {
 					base := make([]vRS, n)
 					for i := range base {
@@ -596,7 +599,7 @@ func init() {
 					}
 				}
 				c.Sample("ids 1..48 once each, then ids 1,2,25,48 twice more; reversed and rotated")
-				c.Bound = "n in 1..130, 200, 257, 300, 513"
+				c.Bound = fmt.Sprintf("n in 1..130 and %v", ns[130:])
 			}})
 			// long inputs for limit / autocut / merge / fusion: every n in 1..130 (+ a few larger)
 			sh = append(sh, vShard{Name: "long-inputs", Run: func(c *vCtx) {
@@ -605,7 +608,10 @@ func init() {
 				for n := 1; n <= 130; n++ {
 					ns = append(ns, n)
 				}
-				ns = append(ns, 200, 257, 300, 513)
+				ns = append(ns, 200, 257, 300, 513, 1025, 4097, 5000)
+				if tier == "thorough" {
+					ns = append(ns, 8193, 16385, 65537)
+				}
 				for _, n := range ns {
 					// score shapes: constant, linear, one gap at every tenth position, two plateaus
 					shapes := [][]float32{make([]float32, n), make([]float32, n), make([]float32, n)}
@@ -614,7 +620,11 @@ func init() {
 						shapes[1][i] = float32(i) * 0.5
 						shapes[2][i] = float32(i / (n/2 + 1) * 10)
 					}
-					for g := 0; g < n; g += 10 {
+					step := 10
+					if n > 600 {
+						step = n / 12
+					}
+					for g := 0; g < n; g += step {
 						sh := make([]float32, n)
 						for i := range sh {
 							sh[i] = float32(i) * 0.01
@@ -656,7 +666,7 @@ func init() {
 					t.fusionLong(v, x)
 				}
 				c.Sample("n in 1..130, 200, 257, 300, 513: constant / linear / plateau / gap-at-g score shapes; fusion of two n-id maps overlapping in n/3..n")
-				c.Bound = "n in 1..130, 200, 257, 300, 513"
+				c.Bound = fmt.Sprintf("n in 1..130 and %v", ns[130:])
 			}})
 			sh = append(sh, vShard{Name: "autocut", Run: func(c *vCtx) {
 				t := &vC19{c: c, cfgS: "autocut"}
